@@ -8,6 +8,7 @@ import BV.C19.Model
 import BV.C19.Session
 import BV.C19.Lemmas
 import BV.C19.Stream
+import BV.C19.EllswiftLemmas
 import BV.Generated.C19
 namespace BV.C19
 open BV.C19.Spec BV.Aead BV.Hex
@@ -167,6 +168,24 @@ theorem garbage_scan_complete (term inp : List UInt8) (g : Nat) (hg : g ≤ MAX_
     scanGarbage term inp scanIterations 0 = .ok g :=
   Lemmas.scanGarbage_finds term inp g hat hno hlen scanIterations 0 (Nat.zero_le _)
     (by simp only [scanIterations, MAX_GARBAGE_LEN] at *; omega)
+
+/-! ### ElligatorSwift: decode ∘ encode = id -/
+
+/-- An ElligatorSwift encoding always decodes to the encoded x-coordinate: whenever
+`xswiftecInv u x case` (BIP324 `xswiftec_inv`, as executed by `EllswiftCreate`'s loop) returns `t`
+for the x-coordinate of a curve point, `xswiftec u t` (BIP324 `xswiftec`, as executed by
+`EllswiftECDHXOnly`) returns `x`. Proved over an ARBITRARY field `F` whose operations are the ones
+in the record `O` (`Lawful O`: +, −, ·, ⁻¹, numerals, a correct and complete partial square root,
+c² = −3), with 2 ≠ 0, 3 ≠ 0 and no root of x³ + 7 (no point of order 2 — true for secp256k1),
+for u ≠ 0 (u = 0 has probability 2⁻²⁵⁶ in `XElligatorSwift` and is excluded by BIP324).
+The executable model runs the same two definitions over `Nat` mod p (`Ellswift.natOps`); that this
+instance is a field, i.e. that secp256k1's p is prime, is not proved in Lean — see meta. -/
+theorem xswiftec_inv_correct {F : Type} [Field F] [DecidableEq F] {O : Ellswift.FieldOps F}
+    (L : Ellswift.Lemmas.Lawful O) (u x t : F) (case : Nat) (hu : u ≠ 0)
+    (h2 : (2 : F) ≠ 0) (h3 : (3 : F) ≠ 0) (hg : ∀ a : F, a ^ 3 + 7 ≠ 0)
+    (hx : ∃ y, y * y = x ^ 3 + 7) (h : Ellswift.xswiftecInv O u x case = some t) :
+    Ellswift.xswiftec O u t = some x :=
+  Ellswift.Lemmas.xswiftec_inv_correct L u x t case hu h2 h3 hg hx h
 
 /-- hypotheses of the theorems above are satisfiable -/
 example : ∃ P : Prims, ∀ k m, (P.mac k m).length = 16 := ⟨chachaPoly, chachaPoly_tag_length⟩
